@@ -122,6 +122,99 @@ pub fn schedule(sim: &Sim, exec: Id, task: Id, pendings: u32, script: &[Vec<Op>]
     }
 }
 
+struct TFut {
+    task: Id,
+    tf: calloop::timer::TimeoutFuture,
+    deadline: u64,
+    _g: DropCtr,
+}
+
+impl Future for TFut {
+    type Output = u64;
+    fn poll(mut self: Pin<&mut Self>, cx: &mut Context<'_>) -> Poll<u64> {
+        let sim = cur();
+        if !note_poll(&sim, self.task) {
+            return Poll::Pending;
+        }
+        let task = self.task;
+        let deadline = self.deadline;
+        match Pin::new(&mut self.tf).poll(cx) {
+            Poll::Ready(()) => {
+                if sim.now_ns() < deadline {
+                    sim.violate("exec.timeout_early", vec![], format!("the TimeoutFuture of task {} resolved at t={} ns, before its deadline {}", task, sim.now_ns(), deadline));
+                }
+                note_done(&sim, task);
+                Poll::Ready(task as u64)
+            }
+            Poll::Pending => {
+                if sim.now_ns() >= deadline {
+                    sim.violate("exec.timeout_late", vec![], format!("the TimeoutFuture of task {} is still pending at t={} ns, its deadline {} has passed", task, sim.now_ns(), deadline));
+                }
+                Poll::Pending
+            }
+        }
+    }
+}
+
+/// A task that awaits a TimeoutFuture. Creating the future inserts a hidden Timer source in
+/// the loop; the model follows it (slot, wait timeout, wake-up of the task).
+pub fn schedule_timeout(sim: &Sim, exec: Id, task: Id, dl: Deadline) {
+    let (sched, destroyed, handle) = {
+        let st = sim.st.borrow();
+        if st.tasks.contains_key(&task) || st.hidden_unknown {
+            return;
+        }
+        let Some(s) = st.srcs.get(&exec) else { return };
+        let K::Exec(e) = &s.k else { return };
+        let Some(sc) = e.sched.clone() else { return };
+        let Some(h) = st.handle.clone() else { return };
+        (sc, s.sh.dropped.get() > 0, h)
+    };
+    if destroyed || sim.hk.borrow().in_dispatch {
+        return;
+    }
+    let now = sim.now_ns();
+    let (deadline, tf) = match dl {
+        Deadline::At(t) => (t, calloop::timer::TimeoutFuture::from_deadline(&handle, sim.instant_at(t))),
+        Deadline::In(d) if d != u64::MAX => (now.saturating_add(d), calloop::timer::TimeoutFuture::from_duration(&handle, std::time::Duration::from_nanos(d))),
+        _ => (now, calloop::timer::TimeoutFuture::from_duration(&handle, std::time::Duration::ZERO)),
+    };
+    drop(handle);
+    let ctr = Rc::new(Cell::new(0));
+    let fut = TFut { task, tf, deadline, _g: DropCtr(ctr.clone()) };
+    register_task(sim, exec, task, ctr);
+    sim.st.borrow_mut().hidden_timers.push((deadline, false, task));
+    let Some(r) = guarded(sim, "schedule", || sched.schedule(fut)) else { return };
+    if r.is_err() {
+        sim.violate("exec.schedule_failed", vec![], format!("schedule() on live executor {} returned ExecutorDestroyed", exec));
+    }
+    sim.probe("timeout_future");
+}
+
+/// after a dispatch: hidden timers whose deadline had passed when the loop polled have fired
+/// (their slot is free again, their task has been woken)
+pub fn hidden_after_dispatch(sim: &Sim, ok: bool, polled_at: u64) {
+    let mut st = sim.st.borrow_mut();
+    let due: Vec<usize> = st.hidden_timers.iter().enumerate().filter(|(_, h)| !h.1 && h.0 <= polled_at).map(|(i, _)| i).collect();
+    if due.is_empty() {
+        return;
+    }
+    if !ok {
+        // the dispatch was interrupted: they may or may not have fired
+        st.hidden_unknown = true;
+        return;
+    }
+    for i in due {
+        st.hidden_timers[i].1 = true;
+        let task = st.hidden_timers[i].2;
+        if let Some(t) = st.tasks.get_mut(&task) {
+            if !t.done && t.polls > 0 {
+                t.runnable = true;
+            }
+        }
+    }
+}
+
 pub fn wake(sim: &Sim, task: Id) {
     let w = {
         let mut st = sim.st.borrow_mut();
